@@ -334,5 +334,43 @@ func genC20(repo string) (string, error) {
 		return "", err
 	}
 	canonList(nt, "slowlogtxn_timeouts", callTexts20(ekv, nt, "WithTimeout"), "the context of a NewSlowLogTxn transaction")
+	// the start-up identity check: every peer listed in initial-cluster is asked, a peer that does not answer is skipped,
+	// the first one that reports another etcd cluster id ends the start-up; nothing ends the walk early
+	eu, err := goast.Load(repo, "pkg/etcdutil/etcdutil.go")
+	if err != nil {
+		return "", err
+	}
+	if err := o.skeletonCanon(eu, "", "CheckClusterID", "skel_CheckClusterID", goast.SkelOpt{Calls: set("GetClusterFromRemotePeers", "ID", "Errorf"), Conds: true}); err != nil {
+		return "", err
+	}
+	cc, err := eu.Func("", "CheckClusterID")
+	if err != nil {
+		return "", err
+	}
+	var flow []string
+	ast.Inspect(cc.Body, func(n ast.Node) bool {
+		switch x := n.(type) {
+		case *ast.IfStmt:
+			flow = append(flow, "if "+eu.Src(x.Cond))
+		case *ast.BranchStmt:
+			flow = append(flow, x.Tok.String())
+		case *ast.ReturnStmt:
+			flow = append(flow, "return")
+		case *ast.RangeStmt:
+			flow = append(flow, "range "+eu.Src(x.X))
+		}
+		return true
+	})
+	canonList(cc, "check_cluster_id_flow", flow, "conditions, loops and jumps of CheckClusterID, source order")
+	sites, err := goast.CallSites(repo, []string{"server"}, "CheckClusterID", nil)
+	if err != nil {
+		return "", err
+	}
+	o.strList("check_cluster_id_sites", sites, "callers of etcdutil.CheckClusterID in the server tree")
+	se, err := srv.Func("Server", "startEtcd")
+	if err != nil {
+		return "", err
+	}
+	canonList(se, "start_etcd_identity_check", callTexts20(srv, se, "CheckClusterID"), "what startEtcd hands to CheckClusterID")
 	return o.sb.String(), nil
 }
